@@ -615,6 +615,53 @@ def d_device_configurations(m):
 
 
 @_dev
+def d_device_configuration_in_function_body(m):
+    """IR >= 11: annotated nodes at the top level of a model-local function and inside a control-flow body of it."""
+    if m.ir_version < 11:
+        m.ir_version = 11
+    c = m.configuration.add()
+    c.name = "cfg_fn"
+    c.num_devices = 2
+    c.device.extend(["CPU", "CUDA:0"])
+    op = m.opset_import.add()
+    op.domain, op.version = "localdc", 1
+    f = m.functions.add()
+    f.name, f.domain = "Sharded", "localdc"
+    f.input.extend(["sx", "sc"])
+    f.output.extend(["so"])
+    fo = f.opset_import.add()
+    fo.domain, fo.version = "", 20
+    then_g = onnx.GraphProto(name="s_then")
+    inner = node("Relu", ["st"], ["s_then_o"], "s_then_relu")
+    dc = inner.device_configurations.add()
+    dc.configuration_id = "cfg_fn"
+    dc.pipeline_stage = 1
+    sp = dc.sharding_spec.add()
+    sp.tensor_name = "s_then_o"
+    sd = sp.sharded_dim.add()
+    sd.axis = 0
+    ss = sd.simple_sharding.add()
+    ss.num_shards = 2
+    then_g.node.add().CopyFrom(inner)
+    then_g.output.add().CopyFrom(value_info("s_then_o", F()))
+    else_g = onnx.GraphProto(name="s_else")
+    else_g.node.add().CopyFrom(node("Neg", ["st"], ["s_else_o"], "s_else_neg"))
+    else_g.output.add().CopyFrom(value_info("s_else_o", F()))
+    a1 = onnx.AttributeProto(name="then_branch", type=onnx.AttributeProto.GRAPH)
+    a1.g.CopyFrom(then_g)
+    a2 = onnx.AttributeProto(name="else_branch", type=onnx.AttributeProto.GRAPH)
+    a2.g.CopyFrom(else_g)
+    top = node("Neg", ["sx"], ["st"], "s_neg")
+    dct = top.device_configurations.add()
+    dct.configuration_id = "cfg_fn"
+    dct.pipeline_stage = 0
+    f.node.add().CopyFrom(top)
+    f.node.add().CopyFrom(node("If", ["sc"], ["so"], "s_if", attrs=[a1, a2]))
+    m.graph.node.add().CopyFrom(node("Sharded", ["b", "c"], ["sharded_out"], "n_sharded", domain="localdc"))
+    m.graph.output.add().CopyFrom(value_info("sharded_out", F()))
+
+
+@_dev
 def d_empty_names_and_optional_io(m):
     m.graph.node.add().CopyFrom(node("Dropout", ["b", "", ""], ["drop_out", ""], "n_drop"))
     m.graph.node.add().CopyFrom(node("Split", ["b"], ["", "sp2"], "n_split"))
@@ -626,7 +673,7 @@ def gen_models(tier, pairs=False):
     for v in versions:
         yield f"baseline@{v}", baseline(v)
     for name, fn in DEVIATIONS:
-        vs = versions if name in ("function_overloads_and_value_info", "device_configurations", "function_with_attributes", "function_with_subgraph") else [10]
+        vs = versions if name in ("function_overloads_and_value_info", "device_configurations", "function_with_attributes", "function_with_subgraph", "custom_domain_node") else [10]
         if name == "function_overloads_and_value_info":
             vs = [v for v in vs if v >= 10]  # FunctionProto.overload exists from IR version 10
         for v in vs:
@@ -635,7 +682,7 @@ def gen_models(tier, pairs=False):
             yield f"{name}@{v}", m
     if pairs:
         for (n1, f1), (n2, f2) in itertools.combinations(DEVIATIONS, 2):
-            m = baseline(11 if "device_configurations" in (n1, n2) else 10)
+            m = baseline(11 if any("device_configuration" in x for x in (n1, n2)) else 10)
             try:
                 f1(m)
                 f2(m)
@@ -649,7 +696,7 @@ def gen_models(tier, pairs=False):
 def gen_triples():
     """Baseline + every triple of deviations from the catalogue."""
     for (n1, f1), (n2, f2), (n3, f3) in itertools.combinations(DEVIATIONS, 3):
-        m = baseline(11 if "device_configurations" in (n1, n2, n3) else 10)
+        m = baseline(11 if any("device_configuration" in x for x in (n1, n2, n3)) else 10)
         try:
             f1(m)
             f2(m)
